@@ -75,7 +75,8 @@ def inlined_guards(fn, by_pat, env=None, depth=0):
         if n.get("k") == "Call" and n.get("cpat"):
             cal = by_pat.get(n["cpat"])
             helper = cal is not None and cal.get("rect") and cal.get("rect") == fn.get("rect") and cal.get("ret") == "void" and cal.get("body") is not None \
-                and (cal.get("access", 2) != 0 or cal.get("rect") in struct_like(by_pat)) and cal.get("name") not in READER_NAMES and _throws(cal)
+                and (cal.get("access", 2) != 0 or cal.get("rect") in struct_like(by_pat)) and cal.get("name") not in READER_NAMES and _throws(cal) \
+                and not (cal.get("name") or "").lower().startswith(("check", "validate"))
             # pure validators, and private void helpers of the reader's own class that reject (a validation loop moved into a
             # helper): their guards count as the reader's, with the parameters bound to the arguments
             if cal is not None and cal is not fn and depth < 3 and (is_pure_validator(cal, by_pat) or helper) and len(cal["params"]) == len(n.get("args", [])):
